@@ -99,8 +99,10 @@ class Sink:
 
 
 class Analysis:
-    def __init__(self, prog, body, sources=None, field_inv=None, validators=None, benign=(0, 2**60), benign_len=(0, 2**47), arg_iv=None):
-        """sources(body, place) -> True if reading this place yields an option-derived (tainted) value;
+    def __init__(self, prog, body, sources=None, field_inv=None, validators=None, benign=(0, 2**60), benign_len=(0, 2**47), arg_iv=None, call_sources=None):
+        """call_sources: compiled regex; the result of a call whose resolved callee matches is a tainted value of its type's
+        full range (a quantity decoded from repository data);
+        sources(body, place) -> True if reading this place yields an option-derived (tainted) value;
         field_inv: {(adt_suffix, field): (lo, hi)}; validators: {callee path: fn(analysis, state, arg_keys)};
         arg_iv: {arg index: (lo, hi)}"""
         self.prog, self.body = prog, body
@@ -109,6 +111,7 @@ class Analysis:
         self.validators = validators or {}
         self.benign, self.benign_len = benign, benign_len
         self.arg_iv = arg_iv or {}
+        self.call_sources = call_sources
         self.sinks = {}
         self.conds = {}   # bool local -> (op, a_operand, b_operand)
         self.out = {}
@@ -170,6 +173,10 @@ class Analysis:
             return None, None, False
         p = op[1]
         k = self.key_of_place(p)
+        if (len(p) == 3 and isinstance(p[1], list) and p[1][0] == "d" and p[1][1] in ("Some", "Ok", "Continue") and isinstance(p[2], list)
+                and p[2][0] == "f" and p[2][1] == 0 and st.tags.get(("l", p[0])) == ("payload",) and ("l", p[0]) in st.iv):
+            # integer payload of an Option / Result / ControlFlow local whose value is known (checked_sub .. ok_or_else .. `?`)
+            k = ("l", p[0])
         if k is None:
             return None, None, False
         tainted = k in st.taint or self.sources(self.body, p)
@@ -366,7 +373,7 @@ class Analysis:
         if H is None or getattr(H, "crate", None) != "rustic_core" or len(H.blocks) > 80 or depth >= 2:
             return None
         try:
-            a = Analysis(self.prog, H, sources=self.sources, field_inv=self.field_inv, validators=self.validators, benign=self.benign, benign_len=self.benign_len)
+            a = Analysis(self.prog, H, sources=self.sources, field_inv=self.field_inv, validators=self.validators, benign=self.benign, benign_len=self.benign_len, call_sources=self.call_sources)
             a.depth = depth + 1
             a.run()
             ivs = []
@@ -555,16 +562,16 @@ class Analysis:
         b, kb, _ = self.read(st, y)
         if a is None or b is None:
             if op in ("Ge", "Gt") and ka and kb:
-                st.ge.add((ka, kb))
+                self.add_ge(st, ka, kb)
             if op in ("Le", "Lt") and ka and kb:
-                st.ge.add((kb, ka))
+                self.add_ge(st, kb, ka)
             return
         na, nb = a, b
         if op == "Eq":
             lo, hi = max(a[0], b[0]), min(a[1], b[1])
             na = nb = (lo, hi) if lo <= hi else a
             if ka and kb:
-                st.ge.add((ka, kb)); st.ge.add((kb, ka))
+                self.add_ge(st, ka, kb); self.add_ge(st, kb, ka)
         elif op == "Ne":
             if b[0] == b[1]:
                 if a[0] == b[0]:
@@ -579,19 +586,19 @@ class Analysis:
         elif op == "Lt":
             na = (a[0], min(a[1], b[1] - 1)); nb = (max(b[0], a[0] + 1), b[1])
             if ka and kb:
-                st.ge.add((kb, ka))
+                self.add_ge(st, kb, ka)
         elif op == "Le":
             na = (a[0], min(a[1], b[1])); nb = (max(b[0], a[0]), b[1])
             if ka and kb:
-                st.ge.add((kb, ka))
+                self.add_ge(st, kb, ka)
         elif op == "Gt":
             na = (max(a[0], b[0] + 1), a[1]); nb = (b[0], min(b[1], a[1] - 1))
             if ka and kb:
-                st.ge.add((ka, kb))
+                self.add_ge(st, ka, kb)
         elif op == "Ge":
             na = (max(a[0], b[0]), a[1]); nb = (b[0], min(b[1], a[1]))
             if ka and kb:
-                st.ge.add((ka, kb))
+                self.add_ge(st, ka, kb)
         if ka is not None and na[0] <= na[1]:
             st.iv[ka] = na
             self.propagate_eq(st, ka)
@@ -710,7 +717,11 @@ class Analysis:
         ivs = [self.read(st, a) for a in args]
         tn = any(x[2] for x in ivs)
         res = None
+        rel = None
         name = c.rsplit("::", 1)[-1]
+        if self.call_sources is not None and self.call_sources.search(c) and int_in(dty):
+            self.write(st, t["dest"], int_in(dty), True)
+            return
         # results of validators stay tagged through `?` plumbing
         if re.search(r"as std::ops::Try>::branch$|^std::ops::Try::branch$|Result::<T, E>::map_err$", c) and args:
             k0 = self.key_of_place(op_place(args[0])) if op_place(args[0]) else None
@@ -728,7 +739,17 @@ class Analysis:
                     res = r
             else:
                 res = r
-        elif re.search(r"(Option|Result)::<T(, E)?>::(unwrap|expect|unwrap_or_default)$|as std::ops::Try>::branch$|^std::ops::Try::branch$|::map_err$", c) and ivs and int_in(dty):
+        elif name == "unwrap_or" and re.search(r"(Option|Result)::<T(, E)?>::unwrap_or$", c) and len(ivs) == 2 and int_in(dty):
+            a, b = ivs[0][0], ivs[1][0]
+            res = (min(a[0], b[0]), max(a[1], b[1])) if a and b else None
+        elif name == "checked_sub" and len(ivs) == 2 and ivs[0][0] and ivs[1][0] and int_in(dty):
+            # payload of Some: the difference, which exists only when it is not negative
+            a, b = ivs[0][0], ivs[1][0]
+            lo0 = int_in(dty)[0]
+            res = (max(a[0] - b[1], lo0), max(a[1] - b[0], lo0))
+            self.write(st, t["dest"], res, tn, ("payload",))
+            return
+        elif re.search(r"(Option|Result)::<T(, E)?>::(unwrap|expect|unwrap_or_default|ok_or|ok_or_else)$|as std::ops::Try>::branch$|^std::ops::Try::branch$|::map_err$", c) and ivs and int_in(dty):
             res = ivs[0][0]
             k0 = ivs[0][1]
             if k0 is not None and k0 in st.tags:
@@ -745,9 +766,11 @@ class Analysis:
         elif name == "min" and len(ivs) == 2 and ivs[0][0] and ivs[1][0]:
             a, b = ivs[0][0], ivs[1][0]
             res = (min(a[0], b[0]), min(a[1], b[1]))
+            rel = ("min", [ivs[0][1], ivs[1][1]])
         elif name == "max" and len(ivs) == 2 and ivs[0][0] and ivs[1][0]:
             a, b = ivs[0][0], ivs[1][0]
             res = (max(a[0], b[0]), max(a[1], b[1]))
+            rel = ("max", [ivs[0][1], ivs[1][1]])
         elif name in ("integer_sqrt", "isqrt") and ivs and ivs[0][0]:
             import math
             res = (math.isqrt(max(ivs[0][0][0], 0)), math.isqrt(max(ivs[0][0][1], 0)))
@@ -798,6 +821,25 @@ class Analysis:
                     for (x, y) in list(st.ge):
                         pass
         self.write(st, t["dest"], res, tn)
+        if rel is not None:
+            # min(a, b) is at most a and at most b (max: at least); one step of transitivity keeps the fact for the named locals
+            # the temporaries were copied from
+            dk = self.key_of_place(t["dest"])
+            for ak in rel[1]:
+                if ak is None or dk is None or ak == dk:
+                    continue
+                pair = (ak, dk) if rel[0] == "min" else (dk, ak)
+                self.add_ge(st, *pair)
+
+    @staticmethod
+    def add_ge(st, hi, lo):
+        """record hi >= lo and close it with what is already known: everything >= hi is >= everything lo is >= of"""
+        ups = {hi} | {a for (a, b) in st.ge if b == hi}
+        downs = {lo} | {b for (a, b) in st.ge if a == lo}
+        for x in ups:
+            for y in downs:
+                if x != y:
+                    st.ge.add((x, y))
 
 
 def validator_summary(prog, body):
